@@ -447,6 +447,12 @@ class TaskScenario(ScenarioData):
         effort = self.property.get("effort", self.scenarioIdx) or 0
         allocations = self.property.get("allocate", self.scenarioIdx)
 
+        # A pinned date outside the project window cannot be honoured
+        pinned_date = self.property.get("start" if forward else "end", self.scenarioIdx)
+        if pinned_date and (pinned_date < self.project["start"] or pinned_date > self.project["end"]):
+            self.isRunAway = True
+            return False
+
         if self.currentSlotIdx is None:
             if forward:
                 start_date = self.property.get("start", self.scenarioIdx)
@@ -595,6 +601,15 @@ class TaskScenario(ScenarioData):
                     else:
                         while self.currentSlotIdx > lowerLimit and not self.isWorkingTime(self.currentSlotIdx):
                             self.currentSlotIdx -= 1
+
+        # A pinned date or dependency bound outside the project window cannot be scheduled
+        # (the scoreboards end there); report the task as not schedulable instead of
+        # indexing beyond them
+        if self.currentSlotIdx < self.project.dateToIdx(self.project["start"]) or self.currentSlotIdx > self.project.dateToIdx(
+            self.project["end"]
+        ):
+            self.isRunAway = True
+            return False
 
         # For effort tasks with allocations, don't set start yet - it will be set
         # when first resource is booked. For non-effort tasks, find first working slot.
